@@ -45,6 +45,7 @@ type Program struct {
 	SymMapOrder   bool
 	PoolSymbolic  bool
 	ExplicitYield bool
+	ConcreteClock bool
 	MaxPreempt    int
 	MaxThreads    int
 	YieldFields   map[string]bool
